@@ -10,6 +10,7 @@ mod corpus;
 mod driver;
 mod hashsim;
 mod keys;
+mod mirisim;
 mod ossim;
 mod prng;
 mod replsim;
@@ -91,6 +92,26 @@ fn main() {
             0
         }
         "selftest" => selftest::selftest(&args[2..]),
+        // the Miri phase of `check C16 thorough` on its own: simctl miri <processes> <rounds>
+        "miri" => {
+            let procs = args.get(2).and_then(|s| s.parse().ok()).unwrap_or(4);
+            let rounds = args.get(3).and_then(|s| s.parse().ok()).unwrap_or(6);
+            let ph = mirisim::phase(driver::verif_seed(), procs, rounds);
+            println!("{}", serde_json::to_string_pretty(&ph.coverage).unwrap());
+            for v in &ph.violations {
+                println!("MIRI-VIOLATION {}", serde_json::to_string(v).unwrap());
+            }
+            for h in &ph.harness_errors {
+                println!("MIRI-HARNESS-ERROR {h}");
+            }
+            if !ph.harness_errors.is_empty() {
+                2
+            } else if !ph.violations.is_empty() {
+                1
+            } else {
+                0
+            }
+        }
         "replay" => driver::replay(args.get(2).map(|s| s.as_str()).unwrap_or_else(|| usage())),
         _ => usage(),
     };
